@@ -21,6 +21,11 @@ type Env struct {
 	imports map[string]string
 	loop    *loopInfo
 	depth   int
+	// captured variables of a closure under contract: name -> pointer to the variable's cell (read in the state the
+	// expression is evaluated in, so old(x) is the entry value)
+	cells map[string]*Val
+	// frame of the enclosing function while evaluating inside old(): only for expressions whose TYPE is all that matters
+	typeFr *Frame
 }
 
 func (env *Env) with(st *State) *Env {
@@ -44,6 +49,14 @@ func (e *Enc) envFor(fr *Frame, st *State) *Env {
 	}
 	if env.old == nil {
 		env.old = st
+	}
+	for _, fv := range fr.fn.FreeVars {
+		if v := fr.vals[fv]; v != nil && isPointer(fv.Type()) && v.Loc == nil && v.Clos == nil {
+			if env.cells == nil {
+				env.cells = map[string]*Val{}
+			}
+			env.cells[fv.Name()] = v
+		}
 	}
 	return env
 }
@@ -203,6 +216,9 @@ func (env *Env) eval(x Expr) (*Val, error) {
 		n := *env
 		n.st = env.old
 		n.fr = nil // the entry state knows parameters (their entry values) but no locals
+		if env.fr != nil {
+			n.typeFr = env.fr // ... except where only the TYPE of a local-typed expression is needed (keysAt)
+		}
 		return n.eval(x.X)
 	case *EUn:
 		v, err := env.eval(x.X)
@@ -417,6 +433,9 @@ func (env *Env) evalIdent(name string) (*Val, error) {
 	}
 	if name == "nil" {
 		return mathVal("0", "Int"), nil
+	}
+	if c, ok := env.cells[name]; ok {
+		return e.loadLoc(env.st, e.ptrLoc(c)), nil
 	}
 	if name == "visited" && env.fr != nil && env.loop != nil {
 		if v := env.lookupSSA(name); v != nil {
@@ -1019,6 +1038,37 @@ func (env *Env) evalCall(x *ECall) (*Val, error) {
 				}
 			}
 			return nil, fmt.Errorf("keys() needs a Go map")
+		case "keysAt":
+			// keysAt(r, m): key set of the Go map object r, taken to be of the same map type as the map-typed expression m
+			// (for frame statements over every map of a type: forall r ref :: !fresh(r) ==> keysAt(r, m) == old(keysAt(r, m)))
+			if len(x.Args) == 2 {
+				menv := env
+				if env.fr == nil && env.typeFr != nil {
+					// inside old(): the map expression only supplies the map type, locals may be named
+					c := *env
+					c.fr = env.typeFr
+					menv = &c
+				}
+				m, err := menv.eval(x.Args[1])
+				if err != nil {
+					return nil, err
+				}
+				r, err := env.eval(x.Args[0])
+				if err != nil {
+					return nil, err
+				}
+				if m.T != nil && len(r.L) == 1 && r.L[0].S == "Int" {
+					if _, ok := m.T.Underlying().(*types.Map); ok {
+						ksort, dk, ds, _, ok := e.mapKeys(m.T)
+						if !ok {
+							return nil, fmt.Errorf("map with composite key")
+						}
+						dom := e.heapGet(env.st, dk, ds)
+						return mathVal("(select "+dom+" "+r.L[0].T+")", "(Array "+ksort+" Bool)"), nil
+					}
+				}
+			}
+			return nil, fmt.Errorf("keysAt(r, m) needs a reference and a Go map expression")
 		case "fresh":
 			v, err := env.eval(x.Args[0])
 			if err != nil {
@@ -1137,6 +1187,28 @@ func (env *Env) evalCall(x *ECall) (*Val, error) {
 				}
 			}
 			return nil, fmt.Errorf("unbox(x, type(T))")
+		case "asptr":
+			// asptr(r, type(*T)): view the reference r (e.g. the payload of an interface value holding a *T) as a *T
+			if len(x.Args) == 2 {
+				if tl, ok := x.Args[1].(*ETypeLit); ok {
+					gt, err := e.resolveGoType(tl.T, env.pkgPath, env.imports)
+					if err != nil {
+						return nil, err
+					}
+					if !isPointer(gt) {
+						return nil, fmt.Errorf("asptr() needs a pointer type, got %s", typeStr(gt))
+					}
+					v, err := env.eval(x.Args[0])
+					if err != nil {
+						return nil, err
+					}
+					if len(v.L) != 1 || v.L[0].S != "Int" {
+						return nil, fmt.Errorf("asptr() needs a reference")
+					}
+					return &Val{T: gt, L: []Sc{v.L[0]}}, nil
+				}
+			}
+			return nil, fmt.Errorf("asptr(r, type(*T))")
 		case "implements":
 			// implements(x, type(I)): the dynamic type of interface value x (or the type tag x) implements interface I
 			if len(x.Args) == 2 {
